@@ -799,8 +799,8 @@ def run(ctx):
         op_stream(ctx, 520, 6)
         op_stream(ctx, 170, 9)
     else:
-        op_stream(ctx, 16000, 6)
-        op_stream(ctx, 9000, 12)
+        op_stream(ctx, 11000, 6)
+        op_stream(ctx, 6000, 12)
 
 
 def replay(ctx, rec):
